@@ -9,6 +9,7 @@ mod tree;
 mod consts;
 mod pure;
 mod integ;
+mod venue;
 
 use serde_json::{json, Value};
 use std::io::{BufRead, BufWriter, Write};
